@@ -244,7 +244,7 @@ def check(repo: Repo, run: Run) -> None:
                 c = matrix.cell(repo, cname, dunder)
                 if not c.is_repo:
                     continue  # reported by M1
-                fn = c.node
+                fn = c.nnode
                 params = [a.arg for a in fn.args.args]
                 if len(params) != 2:
                     run.inconclusive("C01.M3", f"{cname}.{dunder}", "not a two-parameter method")
@@ -302,7 +302,7 @@ def check(repo: Repo, run: Run) -> None:
                 c = matrix.cell(repo, cname, dunder)
                 if not c.is_repo:
                     continue
-                fn = c.node
+                fn = c.nnode
                 params = [a.arg for a in fn.args.args]
                 if len(params) != 2:
                     continue
@@ -335,7 +335,7 @@ def check(repo: Repo, run: Run) -> None:
                 if not c.is_repo:
                     continue
                 n6 += 1
-                bad = checked_intermediates(c.node, set(EXPECTED_RANGE))
+                bad = checked_intermediates(c.nnode, set(EXPECTED_RANGE))
                 run.ob("C01.M6", f"{cname}.{dunder}", not bad,
                        f"{cname}.{dunder}: " + ("intermediate values are plain Python ints" if not bad else
                                                f"`{bad[0]}` feeds the result of a range-checked {cname} operator into further arithmetic: the intermediate can overflow although the exact result fits"),
